@@ -106,7 +106,7 @@ Section Command.
   Definition master_rows (db : tables) : res (list (F * F)) :=
     match sort_rows O (master db) with
     | [] => Err EValue
-    | rows => Ok (map (fun r => (fst r / fofnat O 10, snd r / fofnat O 86400)) rows)
+    | rows => Ok (map (fun r => (fst r / fofnat O 10, snd r / (fofnat O 3600 * fofnat O 24))) rows)
     end.
 
   (** FROM recession_interval AS ri
